@@ -89,8 +89,8 @@ PROTO = "rpyc/core/protocol.py::Connection."
 ATTR_FUNCS = [PROTO + n for n in ("_check_attr", "_access_attr", "_handle_getattr", "_handle_setattr", "_handle_delattr",
                                   "_handle_call", "_handle_callattr", "_handle_cmp", "_handle_ctxexit", "_handle_oldslicing")]
 SERVICE_HOOKS = ["rpyc/core/service.py::Service._rpyc_delattr", "rpyc/core/service.py::Service._rpyc_setattr"]
-ALL_CONTRACTS = ["brine", "compat", "externals", "stream", "channel", "protocol_attr", "colls", "protocol_box", "protocol_core", "async_", "protocol_close", "lib", "netref", "protocol_handlers", "scenarios"]
-ALL_SPECS = ["brine_spec", "channel_spec", "policy_spec", "refcount_spec", "protocol_spec", "box_spec", "netref_spec"]
+ALL_CONTRACTS = ["brine", "compat", "externals", "stream", "channel", "protocol_attr", "colls", "protocol_box", "protocol_core", "async_", "protocol_close", "lib", "netref", "protocol_handlers", "scenarios", "vinegar"]
+ALL_SPECS = ["brine_spec", "channel_spec", "policy_spec", "refcount_spec", "protocol_spec", "box_spec", "netref_spec", "vinegar_spec"]
 
 PLANS["C06"] = dict(
     title="Attribute access by the peer follows the connection's policy, and only its own",
@@ -333,5 +333,74 @@ PLANS["C01"] = dict(
         "waiter; poll_all",
         "the callable itself is a ghost Call event: arbitrary user code with an arbitrary result or exception",
         "sequential execution; threads (C13/C14) not covered",
+    ],
+)
+
+
+VINEGAR = "rpyc/core/vinegar.py::"
+PLANS["C09"] = dict(
+    title="Remote exceptions arrive as the same class with the same data, and safely",
+    contracts=ALL_CONTRACTS, specs=ALL_SPECS, table="module",
+    targets=[VINEGAR + "dump", VINEGAR + "load", PROTO + "_box_exc", PROTO + "_unbox_exc"],
+    lemmas=["plain_snoc", "snoc_is_app", "last_snoc"], compositions=[], finite=["builtin_exceptions"], native_focus=[],
+    design_ref="DESIGN.md section 4, C09",
+    assumptions=COMMON_ASSUMPTIONS + [
+        "SENDER (vinegar.dump, verified): the record is plain; it names the class by (__module__, __name__); every argument "
+        "travels as itself if it is a plain value, else as repr() of exactly that argument; every public data attribute is "
+        "read once from exactly the exception object and treated the same way, private names are never read; the traceback text "
+        "is produced only when include_local_traceback, the version text only when include_local_version; the StopIteration "
+        "shortcut is taken only when there are no arguments to lose",
+        "RECEIVER (vinegar.load, verified for all four settings of the two switches; the quick tier runs the closed default and "
+        "the fully open setting, the thorough tier all four): nothing is imported unless import_custom_exceptions (at most one "
+        "import); the instance is allocated by cls.__new__(cls) exactly once and no constructor / other callable is called (the "
+        "only call possible is .split of the record's version text); the class is the real exception class found under the "
+        "record's names - in any imported module only if instantiate_custom_exceptions, else only in the built-in module - and "
+        "otherwise the generic stand-in named after the original; arguments and attributes are set on exactly that instance",
+        "for ANY plain payload (crafted or genuine): type confusions in the payload raise (TypeError / ValueError / "
+        "AttributeError) or run the payload's own text methods; they are modelled as exceptions / ghost events, not excluded",
+        "_box_exc / _unbox_exc (verified): the switches come from THIS connection's configuration",
+        "the built-in classes, exhaustively (enumeration on the real interpreter): each one's record is rebuilt as an instance of "
+        "that very class with the same arguments, name and module",
+        "ASSUMED: _get_exception_class (class synthesis: a subclass with the same name / module); traceback.format_exception and "
+        "''.join as library models; getattr(module, name, default) is a pure lookup; `%` formatting of plain operands is a pure "
+        "function; T-CLASSNAMES (the class of a raised exception has a text __name__ / __module__); reading .args of an exception "
+        "yields a tuple; vinegar's cache of stand-in classes holds, under each name, a stand-in class of that name (class invariant)",
+        "that the record reaches the peer unaltered: C04 / C05; that an exception reply is what an exception becomes: C08",
+        "the remote traceback's place in str(exc) (the Derived class's __str__) is not under contract",
+    ],
+)
+
+
+PLANS["C07"] = dict(
+    title="A hostile peer cannot step outside what the service exposes",
+    contracts=ALL_CONTRACTS, specs=ALL_SPECS, table="module",
+    targets=ATTR_FUNCS + [PROTO + n for n in ("_unbox", "_dispatch", "_dispatch_request", "_handle_pickle", "_handle_del",
+                                              "_unbox_exc", "_box_exc")] +
+            [VINEGAR + "load", COLLS + "__getitem__", COLLS + "decref", SCEN + "forged_reference_is_refused"],
+    lemmas=["frames_app", "all_fit_app", "plain_snoc", "snoc_is_app", "app_app1", "app_nil"], compositions=[],
+    finite=["handler_table", "default_config"], native_focus=[], design_ref="DESIGN.md section 4, C07",
+    assumptions=COMMON_ASSUMPTIONS + [
+        "the peer is modelled as an arbitrary sequence of well-framed messages: every function below is verified for an "
+        "ARBITRARY plain payload (brine.load's safety contract: whatever arrives decodes to a plain value or raises)",
+        "(1) callables / attributes: every attribute handler (getattr, setattr, delattr, call, callattr, cmp, ctxexit, "
+        "oldslicing) reaches the object only through _check_attr with the right permission, for every payload (C06's contracts)",
+        "(2) references: an incoming local-reference label is resolved through THIS connection's table of lent objects and "
+        "nothing else; an id that is not in it is refused with KeyError (Connection._unbox[local_reference], the ghost client "
+        "forged_reference_is_refused); a remote-reference label only ever creates / reuses a proxy; unknown labels are refused",
+        "(3) pickling: _handle_pickle refuses before anything is pickled unless allow_pickle; the closure scan (enumeration over "
+        "rpyc/core's source) finds pickle / import / eval / exec only at _handle_pickle (guarded), the proxy-side pickling "
+        "helpers (run by local code, not by the peer) and vinegar.load's import (guarded); the default configuration has "
+        "allow_pickle, import_custom_exceptions and instantiate_custom_exceptions off (enumeration over DEFAULT_CONFIG)",
+        "(4) crafted exception payloads: vinegar.load[closed] - no import, no constructor, only built-in exception classes or the "
+        "generic stand-in, for ANY plain payload (type confusions raise)",
+        "(5) every failure is answered: _dispatch_request turns every handler failure (unknown handler number, wrong arity, "
+        "refused access, KeyError for a forged id) into exactly one exception reply; the handler table serves exactly the "
+        "published handler numbers (enumeration)",
+        "NOT covered: _handle_inspect / _handle_instancecheck / _handle_getroot bodies beyond their table lookups; denial of "
+        "service (a peer can always send huge or endless messages); the two findings F2 / F11 (a reply that cannot be produced "
+        "ends the connection - `at worst ends that one connection` is what the statement allows, they are listed because C08 "
+        "forbids them)",
+        "`leaves the service's state untouched`: frames of the refusing paths (modifies = nothing on KeyError / AttributeError "
+        "paths); what an ALLOWED call does to the service is the service's business",
     ],
 )
